@@ -193,8 +193,9 @@ theorem well_scoped_never_unbound (c : Cfg) (hq1 : c.q.callCopies = true) (hq2 :
 /-- `let $f := function(){ $y } return let $y := 9 return $f()` -/
 def f05cWitness : Expr := .letE 1 (.fn [] (.var 5)) (.letE 5 (.int 9) (.call0 (.var 1)))
 
-/-- F05c (not repaired): outside the hypothesis `WS` the model of the Python code and the lexical
-semantics differ — the function body sees the `$y` of its CALLER (9 instead of XPST0008). -/
+/-- F05c: without its repair (`Quirks.fixed`), outside the hypothesis `WS` the model of the Python code
+and the lexical semantics differ — the function body sees the `$y` of its CALLER (9 instead of
+XPST0008); with the repair (`Quirks.lexical`) they agree. -/
 theorem f05c_dynamic_scope :
     WS false true (dom []) f05cWitness = false ∧
     outOf (eval ⟨.fixed, none⟩ 10 f05cWitness [] []) = .ok [.int 9] ∧
